@@ -346,6 +346,7 @@ func docStreams(c *Ctx, o docOpts, f func(stream string, doc []byte)) {
 	}
 	// every inline/block snippet in every block context (systematic), then random pairs of those
 	if o.random > 0 || o.corpus {
+		containerLeafDocs(func(d []byte) { f("leaf-in-container-indentations", d) })
 		matrixDocs(func(d []byte) { f("context-x-content", d) })
 		for i := 0; i < o.random/4; i++ {
 			f("context-x-content-pairs", matrixPair(c.R))
@@ -704,4 +705,35 @@ func matrixPair(r *RNG) []byte {
 		sb.WriteString("\n[^1]: note\n\n[r]: /ref\n\n[a]: /early 'T'\n")
 	}
 	return []byte(sb.String())
+}
+
+// ---------- leaf blocks inside containers with every indentation spelling ----------
+// (found by the proof attempt of the block-range theorem: a fenced code line indented less than
+// its fence, behind a container marker followed by a tab, got a start beyond its stop)
+func containerLeafDocs(f func([]byte)) {
+	prefixes := []string{"", ">", "> ", ">\t", ">  ", "- ", "-\t", "1. ", "1.\t", "> - ", ">\t-\t", "   > ", "- > "}
+	conts := map[string][]string{"": {""}, ">": {">", "> ", ">\t"}, "> ": {">", "> ", ">\t", ">  "}, ">\t": {">", "> ", ">\t"}, ">  ": {"> ", ">\t"},
+		"- ": {"  ", "\t", " "}, "-\t": {"  ", "\t", "    "}, "1. ": {"   ", "\t"}, "1.\t": {"   ", "\t", "    "}, "> - ": {">   ", ">\t", "> "}, ">\t-\t": {">\t\t", ">     "}, "   > ": {">", "   >\t"}, "- > ": {"  > ", "  >\t", "\t>\t"}}
+	opens := []string{"```", "~~~", "   ```", " ~~~~", "\t```", "  ``` info"}
+	bodies := []string{"x", "\tx", " x", "  x", "   x", "    x", "\t\tx", " \tx", "", "\t", "  ", "```x", "x\n\ty"}
+	ends := []string{"", "\n", "\n```\n", "\n   ```\n", "\n\nafter\n"}
+	for _, p := range prefixes {
+		for _, c := range conts[p] {
+			for _, o := range opens {
+				for bi, b := range bodies {
+					e := ends[(bi+len(o)+len(c))%len(ends)]
+					body := strings.ReplaceAll(b, "\n", "\n"+c)
+					end := strings.ReplaceAll(e, "\n", "\n"+c)
+					if strings.HasSuffix(end, "\n"+c) {
+						end = end[:len(end)-len(c)]
+					}
+					f([]byte(p + o + "\n" + c + body + end))
+				}
+			}
+			// the same containers around the other leaf blocks
+			for _, leaf := range []string{"    code\n%s\tmore\n", "<div>\n%s\tx\n%s</div>\n", "para\n%s\tlazy\n%s===\n", "# h\n%s\t# not\n", "[a]: /u\n%s\t'title'\n%s\n%s[a]\n", "<!--\n%s\t-->\n%sx\n", "***\n%s\t***\n", "1. x\n%s\t2. y\n"} {
+				f([]byte(p + strings.ReplaceAll(leaf, "%s", c)))
+			}
+		}
+	}
 }
